@@ -498,3 +498,184 @@ Proof.
   destruct (decode_seq (decode_fuel s) 0 s) as [[l' r]| | |] eqn:E; try discriminate.
   intros E2. injection E2 as <-. apply (proj2 (decode_faithful _) _ _ _ _ Hb) in E as [E _]. exact E.
 Qed.
+
+(* ---- induction over dependency trees (nested lists) ---- *)
+Section DepInd.
+Variable P : dep -> Prop.
+Hypothesis Ha : forall a, P (DAtom a).
+Hypothesis Hg : forall k f ds, Forall P ds -> P (DGroup k f ds).
+Fixpoint dep_ind2 (d : dep) : P d :=
+  match d with
+  | DAtom a => Ha a
+  | DGroup k f ds =>
+    Hg k f ds ((fix go (l : list dep) : Forall P l :=
+                  match l with [] => Forall_nil _ | x :: r => Forall_cons _ (dep_ind2 x) (go r) end) ds)
+  end.
+End DepInd.
+
+(* trees the decoder builds: group types 1..6 *)
+Fixpoint wt (d : dep) : bool :=
+  match d with
+  | DAtom _ => true
+  | DGroup k _ ds => (1 <=? k) && (k <=? 6) && forallb wt ds
+  end.
+
+(* ---- String() prints the PMS text of the tree ---- *)
+Definition sp_join (ts : list bytes) : bytes := unwords [nb 32] ts.
+Lemma unwords_cons sep (x : bytes) r : r <> [] -> unwords sep (x :: r) = x ++ sep ++ unwords sep r.
+Proof. destruct r; [congruence|reflexivity]. Qed.
+Lemma unwords_app sep (a b : list bytes) : a <> [] -> b <> [] -> unwords sep (a ++ b) = unwords sep a ++ sep ++ unwords sep b.
+Proof.
+  intros Ha Hb. induction a as [|x a IH]; [congruence|]. destruct a as [|y a].
+  - cbn [app]. now rewrite unwords_cons.
+  - change ((x :: y :: a) ++ b) with (x :: ((y :: a) ++ b)). rewrite unwords_cons by discriminate.
+    rewrite IH by discriminate. rewrite (unwords_cons sep x (y :: a)) by discriminate. now rewrite <- !app_assoc.
+Qed.
+Lemma dep_toks_ne d : dep_toks d <> [].
+Proof. destruct d; cbn; [discriminate|]. destruct (group_tok _ _); discriminate. Qed.
+
+Definition str_go := fix go (l : list dep) : bytes :=
+  match l with [] => [] | x :: r => nb 32 :: dep_string x ++ go r end.
+
+Lemma dep_string_toks : forall d, wt d = true -> dep_string d = sp_join (dep_toks d).
+Proof.
+  apply (dep_ind2 (fun d => wt d = true -> dep_string d = sp_join (dep_toks d))).
+  - reflexivity.
+  - intros k f ds IH Hwt. cbn [wt] in Hwt. apply andb_true_iff in Hwt as [Hk Hds]. apply andb_true_iff in Hk as [Hk1 Hk6].
+    cbn [dep_string dep_toks]. fold str_go.
+    set (X := flat_map dep_toks ds ++ [bs ")"]).
+    assert (HX : X <> []) by (unfold X; destruct (flat_map dep_toks ds); discriminate).
+    assert (Hgo : [nb 32] ++ sp_join X = str_go ds ++ [nb 32; nb 41]).
+    { unfold X. clear Hk1 Hk6 X HX. induction ds as [|x r IHr]; [reflexivity|].
+      cbn [forallb] in Hds. apply andb_true_iff in Hds as [Hx Hr]. inversion IH as [|? ? Px Pr]; subst.
+      cbn [flat_map str_go]. rewrite <- app_assoc. unfold sp_join. rewrite unwords_app;
+        [|apply dep_toks_ne|destruct (flat_map dep_toks r); discriminate].
+      fold (sp_join (dep_toks x)). rewrite <- (Px Hx). fold (sp_join (flat_map dep_toks r ++ [bs ")"])).
+      rewrite (IHr Pr Hr). cbn [app]. now rewrite <- app_assoc. }
+    assert (Hcases : k = 1 \/ k = 2 \/ k = 3 \/ k = 4 \/ k = 5 \/ k = 6) by lia.
+    unfold sp_join in *.
+    destruct Hcases as [ -> | [ -> | [ -> | [ -> | [ -> | -> ] ] ] ] ]; cbn [group_intro group_tok N.eqb Pos.eqb app]; fold X.
+    + rewrite unwords_cons by assumption. rewrite Hgo. reflexivity.
+    + rewrite unwords_cons by discriminate. rewrite unwords_cons by assumption. rewrite Hgo. reflexivity.
+    + rewrite unwords_cons by discriminate. rewrite unwords_cons by assumption. rewrite Hgo. reflexivity.
+    + rewrite unwords_cons by discriminate. rewrite unwords_cons by assumption. rewrite Hgo. reflexivity.
+    + rewrite unwords_cons by discriminate. rewrite unwords_cons by assumption. rewrite Hgo.
+      rewrite <- !app_assoc. reflexivity.
+    + rewrite unwords_cons by discriminate. rewrite unwords_cons by assumption. rewrite Hgo.
+      cbn [app]. rewrite <- !app_assoc. reflexivity.
+Qed.
+
+Lemma decode_wt f :
+  (forall d s x r, decode_dep f d s = ROk (Some x, r) -> wt x = true) /\
+  (forall d s l r, decode_seq f d s = ROk (l, r) -> forallb wt l = true).
+Proof.
+  induction f as [|f [IHd IHs]]; [split; intros; discriminate|]. split.
+  - intros d s x r. rewrite decode_dep_S. unfold dep_step.
+    destruct (get_token_split s) as [(_ & -> & Hw0)|(tok & rest & Ed & Hne & Hw & Hb & Ht & ->)].
+    { destruct d; discriminate. }
+    pose proof (get_token_tok tok Hne Hw) as Hc.
+    destruct (get_token tok) as [| |r0|r0|ty r0|ty flag r0|s1] eqn:Etok; cbn [retarget]; try discriminate; [destruct Hc| | | | |].
+    + destruct (decode_seq f (S d) rest) as [[l r']| | |] eqn:E; try discriminate.
+      intros E2. injection E2 as <- <-. cbn [wt]. apply IHs in E. now rewrite E.
+    + destruct d; discriminate.
+    + destruct Hc as (_ & _ & Hk).
+      destruct (decode_dep f d rest) as [[[[a'|t fl l]|] r']| | |] eqn:E; try discriminate.
+      destruct (t =? 1) eqn:Et1; [|discriminate]. apply N.eqb_eq in Et1. subst t.
+      intros E2. injection E2 as <- <-. apply IHd in E. cbn [wt] in *. apply andb_true_iff in E as [_ E]. rewrite E.
+      destruct Hk as [ -> | [ -> | -> ] ]; reflexivity.
+    + destruct Hc as (_ & _ & Hk & _).
+      destruct (decode_dep f d rest) as [[[[a'|t fl l]|] r']| | |] eqn:E; try discriminate.
+      * intros E2. injection E2 as <- <-. cbn [wt forallb]. destruct Hk as [ -> | -> ]; reflexivity.
+      * destruct (t =? 1) eqn:Et1; [|discriminate]. intros E2. injection E2 as <- <-. apply IHd in E. cbn [wt] in *.
+        apply andb_true_iff in E as [_ E]. rewrite E. destruct Hk as [ -> | -> ]; reflexivity.
+    + destruct (raw_parse_at (tok ++ rest) true true) as [[p| | |] r'] eqn:E; try discriminate.
+      destruct (not_ws (peek r')); [discriminate|]. intros E2. injection E2 as <- <-. reflexivity.
+  - intros d s l r. rewrite decode_seq_S. unfold seq_step.
+    destruct (decode_dep f d s) as [[[x|] r1]| | |] eqn:E; try discriminate.
+    + destruct (decode_seq f d r1) as [[l' r']| | |] eqn:E2; try discriminate.
+      intros E3. injection E3 as <- <-. cbn [forallb]. apply IHd in E. apply IHs in E2. now rewrite E, E2.
+    + intros E3. injection E3 as <- <-. reflexivity.
+Qed.
+
+Lemma decode_ok_wt s l : decode s = ROk l -> forallb wt l = true.
+Proof.
+  unfold decode. destruct (decode_seq (decode_fuel s) 0 s) as [[l' r]| | |] eqn:E; try discriminate.
+  intros E2. injection E2 as <-. eapply (proj2 (decode_wt _)); eauto.
+Qed.
+
+(* ---- unbalanced parentheses are rejected ---- *)
+Fixpoint balanced (n : nat) (ts : list bytes) : bool :=
+  match ts with
+  | [] => Nat.eqb n 0
+  | t :: r =>
+    if beq t (bs "(") then balanced (S n) r
+    else if beq t (bs ")") then match n with O => false | S m => balanced m r end
+    else balanced n r
+  end.
+
+Lemma decode_balanced f :
+  (forall d s x r, decode_dep f d s = ROk (x, r) ->
+     match x with
+     | Some _ => forall n, balanced n (wtoks s) = balanced n (wtoks r)
+     | None => match d with O => wtoks s = [] /\ r = [] | S _ => wtoks s = bs ")" :: wtoks r end
+     end) /\
+  (forall d s l r, decode_seq f d s = ROk (l, r) ->
+     match d with
+     | O => r = [] /\ forall n, balanced n (wtoks s) = Nat.eqb n 0
+     | S _ => forall n, balanced (S n) (wtoks s) = balanced n (wtoks r)
+     end).
+Proof.
+  induction f as [|f [IHd IHs]]; [split; intros; discriminate|]. split.
+  - intros d s x r. rewrite decode_dep_S. unfold dep_step.
+    destruct (get_token_split s) as [(_ & -> & Hw0)|(tok & rest & Ed & Hne & Hw & Hb & Ht & ->)].
+    { destruct d; [|discriminate]. intros E. injection E as <- <-. now split. }
+    pose proof (get_token_tok tok Hne Hw) as Hc.
+    assert (Hnp : forall k fl r0, get_token tok = TGroup k r0 \/ get_token tok = TUse k fl r0 ->
+                  forall n w, balanced n (tok :: w) = balanced n w).
+    { intros k fl r0 Hg n w. cbn [balanced].
+      destruct (beq tok (bs "(")) eqn:E1. { apply beq_true in E1. subst tok. cbn in Hg. destruct Hg; discriminate. }
+      destruct (beq tok (bs ")")) eqn:E2. { apply beq_true in E2. subst tok. cbn in Hg. destruct Hg; discriminate. }
+      reflexivity. }
+    destruct (get_token tok) as [| |r0|r0|ty r0|ty flag r0|s1] eqn:Etok; cbn [retarget]; try discriminate; [destruct Hc| | | | |].
+    + destruct Hc as [_ ->].
+      destruct (decode_seq f (S d) rest) as [[l r']| | |] eqn:E; try discriminate.
+      intros E2. injection E2 as <- <-. apply IHs in E. intros n. rewrite Ht. cbn [balanced beq]. cbn. apply E.
+    + destruct Hc as [_ ->]. destruct d; [discriminate|]. intros E. injection E as <- <-. exact Ht.
+    + destruct (decode_dep f d rest) as [[[[a'|t fl l]|] r']| | |] eqn:E; try discriminate.
+      destruct (t =? 1); [|discriminate]. intros E2. injection E2 as <- <-. apply IHd in E. intros n.
+      rewrite Ht, (Hnp ty [] r0) by auto. apply E.
+    + destruct (decode_dep f d rest) as [[[[a'|t fl l]|] r']| | |] eqn:E; try discriminate.
+      * intros E2. injection E2 as <- <-. apply IHd in E. intros n. rewrite Ht, (Hnp ty flag r0) by auto. apply E.
+      * destruct (t =? 1); [|discriminate]. intros E2. injection E2 as <- <-. apply IHd in E. intros n.
+        rewrite Ht, (Hnp ty flag r0) by auto. apply E.
+    + destruct Hc as (_ & H40 & H41).
+      destruct (raw_parse_at (tok ++ rest) true true) as [[p| | |] r'] eqn:E; try discriminate.
+      destruct (not_ws (peek r')) eqn:En; [discriminate|]. intros E2. injection E2 as <- <-.
+      apply raw_parse_ok in E as (Hs & Hpne & Hpw & _). intros n.
+      assert (Hws : wtoks s = p_atom p :: wtoks r').
+      { rewrite <- wtoks_drop, Ed, Hs. apply wtoks_token; auto. now apply not_ws_bnd. }
+      assert (Hpk : peek (p_atom p) = peek tok).
+      { rewrite <- (peek_app_ne (p_atom p) r') by assumption. rewrite <- Hs. now apply peek_app_ne. }
+      rewrite Hws. cbn [balanced].
+      destruct (beq (p_atom p) (bs "(")) eqn:E1. { apply beq_true in E1. rewrite E1 in Hpk. rewrite <- Hpk in H40. discriminate. }
+      destruct (beq (p_atom p) (bs ")")) eqn:E2. { apply beq_true in E2. rewrite E2 in Hpk. rewrite <- Hpk in H41. discriminate. }
+      reflexivity.
+  - intros d s l r. rewrite decode_seq_S. unfold seq_step.
+    destruct (decode_dep f d s) as [[[x|] r1]| | |] eqn:E; try discriminate.
+    + apply IHd in E. destruct (decode_seq f d r1) as [[l' r']| | |] eqn:E2; try discriminate.
+      intros E3. injection E3 as <- <-. apply IHs in E2. destruct d.
+      * destruct E2 as [-> E2]. split; [reflexivity|]. intros n. rewrite E. apply E2.
+      * intros n. rewrite E. apply E2.
+    + intros E3. injection E3 as <- <-. apply IHd in E. destruct d.
+      * destruct E as [E ->]. split; [reflexivity|]. intros n. now rewrite E.
+      * intros n. rewrite E. cbn [balanced beq]. reflexivity.
+Qed.
+
+(* a stray ")" or a missing ")" -- any imbalance of the parenthesis tokens -- is an error, never
+   a truncated tree *)
+Theorem decode_reject_unbalanced s : balanced 0 (wtoks s) = false -> decode s = RErr.
+Proof.
+  intros Hb. destruct (decode_total s) as [H1 H2]. destruct (decode s) as [l| | |] eqn:E; try congruence.
+  exfalso. unfold decode in E. destruct (decode_seq (decode_fuel s) 0 s) as [[l' r]| | |] eqn:E2; try discriminate.
+  apply (proj2 (decode_balanced _)) in E2 as [_ E2]. rewrite E2 in Hb. discriminate.
+Qed.
